@@ -2,6 +2,7 @@ import Iota.Driver.Util
 import Iota.Model.Curl
 import Iota.Spec.CurlP
 import Iota.Model.AsmSem
+import Iota.Gen.CurlAsm
 
 /-!
 Driver ops for C06 / C20.
@@ -91,9 +92,12 @@ def ops : List (String × Handler) := [
     | [l, h] => match planeOfHex l, planeOfHex h with
       | some lp, some hp =>
         let z : Plane := Vector.replicate 729 0
-        -- the portable model and the assembly interpreter (Iota/Model/AsmSem.lean) on the same planes
+        -- the portable model and the assembly interpreter (Iota/Model/AsmSem.lean) on the same planes; the
+        -- interpreter runs the instruction list REGENERATED from transform_amd64.s on this run (Gen.CurlAsm), so
+        -- an edited .s shows up here as a fault or a different result, not only as a broken tie theorem
         match transformGeneric { lto := z, hto := z, lfrom := lp, hfrom := hp },
-              Iota.Asm.runProgram z z lp hp 700000 with
+              Iota.Asm.run Iota.Gen.CurlAsm.program 700000
+                (Iota.Asm.initial { lto := z, hto := z, lfrom := lp, hfrom := hp }) with
         | some b, .done m =>
           if b.lto == m.lto && b.hto == m.hto && b.lfrom == m.lfrom && b.hfrom == m.hfrom then
             hexOfPlane b.lto ++ " " ++ hexOfPlane b.hto
